@@ -22,7 +22,7 @@ Batch == JsonDeserialize(IOEnv.TRACE_FILE)
 N == Len(Batch)
 
 VARIABLE tid
-tvars == <<req, cb, pc, actual, authz, cov, out, tid>>
+tvars == <<req, cb, pc, actual, authz, cov, out, path, tid>>
 
 SetOf(s) == {s[i] : i \in 1 .. Len(s)}
 Seq2(s) == <<s[1], s[2]>>
@@ -69,7 +69,7 @@ ObsOK(o) == LET r == ObsOut(o) IN
 TraceInit ==
   /\ tid \in 1 .. N
   /\ req = ReqOf(Batch[tid].req) /\ cb = CbOf(Batch[tid].cb)
-  /\ pc = "start" /\ actual = <<>> /\ authz = [all |-> FALSE, lims |-> <<>>] /\ cov = {} /\ out = NoOut
+  /\ pc = "start" /\ actual = <<>> /\ authz = [all |-> FALSE, lims |-> <<>>] /\ cov = {} /\ out = NoOut /\ path = <<>>
   /\ (~ObsOK(Batch[tid].obs)) => TLCSet(2, TLCGet(2) \cup {tid})
 
 TraceNext ==
